@@ -92,6 +92,17 @@ class DynamicSchedulePass( BasePass ):
 
     constraint_objs = top._dag.constraint_objs
     onces = top.get_all_update_once()
+    # A block that calls a blocking method is scheduled through its
+    # greenlet wrapper (see WrapGreenletPass)
+    greenlet_mapping = getattr( top._dag, 'blk_greenlet_mapping', {} )
+    onces = onces | { greenlet_mapping[x] for x in onces if x in greenlet_mapping }
+    # Blocks generated for nets and greenlet wrappers have no host component
+    def describe( y ):
+      kind = '@update_once' if y in onces else '@update'
+      try:
+        return f"{y.__name__} ({kind} in 'top.{repr(top.get_update_block_host_component(y))[2:]}')"
+      except KeyError:
+        return f"{y.__name__} (generated block)"
 
     # Put the graph schedule to _sched
     top._sched.update_schedule = schedule = []
@@ -116,10 +127,7 @@ class DynamicSchedulePass( BasePass ):
         for x in scc:
           if x in onces:
             raise UpblkCyclicError("update_once blocks are not allowed to appear in a cycle. \n - " + \
-                            "\n - ".join( [
-                              f"{y.__name__} ({'@update_once' if y in onces else '@update'} " \
-                              f"in 'top.{repr(top.get_update_block_host_component(y))[2:]}')"
-                              for y in scc] ))
+                            "\n - ".join( [ describe(y) for y in scc ] ))
 
         tmp_schedule = []
         Q = deque()
